@@ -465,6 +465,23 @@ func runC14(c c14Case) kit.Result {
 		if seekable {
 			res.Classes = append(res.Classes, "seekable")
 		}
+		// 3. a runtime set symbol is re-used from row to row by the engine: re-opened on a row without that set it
+		// must be invalid whatever position the previous walk left it in
+		if c.Kind == "set-symbol-runtime" {
+			if rt, ok := cur.(boltz.RuntimeEntitySetSymbol); ok {
+				for _, row := range []string{"row-without-bucket", "a1"} {
+					again := rt.OpenCursor(tx, []byte(row))
+					wantValid := row == "a1" && len(expect) > 0
+					if again.IsValid() != wantValid {
+						return fmt.Errorf("%s: after %v the same runtime symbol re-opened on row %q reports IsValid=%v, expected %v", label, trace, row, again.IsValid(), wantValid)
+					}
+					if wantValid && !bytes.Equal(again.Current(), []byte(expect[0])) {
+						return fmt.Errorf("%s: re-opened on row %q Current = %q, expected %q", label, row, again.Current(), expect[0])
+					}
+				}
+				res.Classes = append(res.Classes, "runtime-symbol-reopened")
+			}
+		}
 		return nil
 	})
 	res.NonTrivial = seekAbsent || hasEmptyElem || len(expect) == 0
